@@ -256,7 +256,10 @@ def handle (line : String) : String :=
         let m := chainStr chain ++ " " ++ bhex leafStr
         let d1 := if bad.isEmpty then "" else "DIFF verdicts " ++ String.intercalate ";" bad
         let goChain := (goRes.splitOn " ").headD ""
-        let d2 := if chainStr chain == goChain then (if m == goRes then "" else s!"DIFF leaf model={m}")
+        -- a declared label with non-ASCII bytes goes through Go's strings.ToLower (Unicode case mapping,
+        -- U+FFFD for invalid bytes), which the byte-level model does not cover: the chain is compared, the label is not
+        let d2 := if chainStr chain == goChain then
+                    (if m == goRes || !isAsciiBytes cs then "" else s!"DIFF leaf model={m}")
                   else s!"DIFF walk model={m} ; SPEC C03:chain-not-first-match-path"
         -- the specification oracle judges the implementation's own result
         let sp := match parseGoWalk goRes with
